@@ -666,6 +666,47 @@ func genCase(t *rapid.T) Case {
 		}
 		c.Direct = 0
 
+	case branch == 42 || branch == 43: // raw streams beyond 256 KiB (where the budget stops growing) behind a demanding header
+		c.Origin = "big-raw"
+		total := rapid.SampledFrom([]int{300 << 10, 400 << 10, 400 << 10, 1 << 20, 2 << 20}).Draw(t, "rawlen")
+		c.Tags = []string{"raw>256KiB/other-header"}
+		switch sub := rapid.IntRange(0, 9).Draw(t, "sub"); {
+		case sub <= 4: // progressive JPEG: the coefficient buffer is 4 bytes per sample
+			geo := rapid.SampledFrom([][3]int{{8800, 8800, 1}, {11000, 11000, 1}, {9000, 9000, 1}, {6000, 6000, 3}, {16000, 5000, 1}, {4100, 4100, 4}}).Draw(t, "geometry")
+			var comps []jpegComp
+			var scan []int
+			for i := 0; i < geo[2]; i++ {
+				comps = append(comps, jpegComp{id: byte(i + 1), hv: 0x11})
+				scan = append(scan, i)
+			}
+			body = tinyJPEG(0xc2, 8, geo[1], geo[0], comps, scan, 64)
+			body = body[:len(body)-2]                      // no EOI: the padding is entropy-coded data
+			if rapid.IntRange(0, 3).Draw(t, "bare") == 0 { // as little as a decoder needs: SOI, SOF2, SOS
+				sof, sos := jpegSegments(body)
+				b2 := append([]byte{0xff, 0xd8}, body[sof:sof+2+int(body[sof+2])<<8+int(body[sof+3])]...)
+				body = append(b2, body[sos:sos+2+int(body[sos+2])<<8+int(body[sos+3])]...)
+			}
+			setChain([]string{"DCTDecode"}, nil)
+			c.Tags = []string{"raw>256KiB/header-claims-more-than-cap", "raw>256KiB/dct-progressive"}
+		case sub == 5: // baseline JPEG with the large frame (a baseline decoder streams and asks for little)
+			body = tinyJPEG(0xc0, 8, 4096, 4096, []jpegComp{{1, 0x11, 0, 0}}, []int{0}, 64)
+			body = body[:len(body)-2]
+			setChain([]string{"DCTDecode"}, nil)
+		case sub == 6: // JBIG2: retained 2 MiB regions, more of them than 264 MiB hold
+			body = jbig2RetainedRegions(rapid.SampledFrom([]int{140, 150, 200}).Draw(t, "regions"))
+			setChain([]string{"JBIG2Decode"}, nil)
+			c.Tags = []string{"raw>256KiB/header-claims-more-than-cap", "raw>256KiB/jbig2-retained-regions"}
+		case sub == 7: // CCITTFax: widest rows, most rows
+			body = bytes.Repeat([]byte{0xff}, 600)
+			setChain([]string{"CCITTFaxDecode"}, []gen.O{oDict(map[string]gen.O{"K": oInt(-1), "Columns": oInt(1 << 20), "Rows": oInt(1 << 20)})})
+		default: // predictor rows at the limit
+			body = encodeWith(pdf.FilterFlate{}, payload(0, 3000, 1))
+			setChain([]string{"FlateDecode"}, []gen.O{oDict(map[string]gen.O{"Predictor": oInt(15), "Columns": oInt(65536), "Colors": oInt(32), "BitsPerComponent": oInt(16)})})
+		}
+		c.PadLen = total - len(body)
+		c.PadMode = 0
+		c.Direct = 0
+
 	case branch < 44: // noise under a random chain
 		c.Origin = "noise"
 		k := rapid.SampledFrom([]int{0, 1, 1, 1, 2, 2, 3, 5, 8}).Draw(t, "k")
@@ -768,6 +809,9 @@ func genCase(t *rapid.T) Case {
 		sub := rapid.IntRange(0, 9).Draw(t, "sub")
 		if sub == 0 && rapid.Bool().Draw(t, "withrows") {
 			sub = 9
+		}
+		if (sub == 0 || sub == 9) && rapid.IntRange(0, 2).Draw(t, "cheaper") == 0 {
+			sub = 5 // every bomb decodes 16 MiB of rows: keep them to about twenty per run
 		}
 		switch {
 		case sub == 0: // the bomb: all-white Group 4 rows of maximal width, no /Rows
@@ -1199,7 +1243,7 @@ func genCase(t *rapid.T) Case {
 		body = body[:maxBody]
 	}
 	c.Body = body
-	if rapid.IntRange(0, 24).Draw(t, "shape") == 0 {
+	if c.Origin != "big-raw" && rapid.IntRange(0, 24).Draw(t, "shape") == 0 {
 		// larger raw lengths unlock larger budgets
 		if rapid.Bool().Draw(t, "rep") && len(body) > 0 {
 			c.Rep = rapid.IntRange(1, max(1, min(50, (1<<20)/len(body)))).Draw(t, "reps")
@@ -1215,7 +1259,7 @@ func genCase(t *rapid.T) Case {
 	if strings.HasPrefix(c.Origin, "ccitt-bomb") && c.Mode != 0 && rapid.IntRange(0, 3).Draw(t, "drainbomb") != 0 {
 		c.Mode = 0
 	}
-	if c.ProgScans != 0 || strings.HasSuffix(c.Origin, "-over-bomb") || c.Origin == "jbig2-halftone" || c.Origin == "jbig2-text" {
+	if c.ProgScans != 0 || strings.HasSuffix(c.Origin, "-over-bomb") || c.Origin == "jbig2-halftone" || c.Origin == "jbig2-text" || c.Origin == "big-raw" {
 		c.Mode = 0
 	}
 	if c.ProgScans < 0 {
@@ -1968,4 +2012,26 @@ func (ts textSpec) buildLarge() (body []byte, tags []string, expectOut int, ok b
 		tags = append(tags, "jbig2-text/huffman-refine-mixed-ri")
 	}
 	return body, tags, 0, true
+}
+
+// jbig2RetainedRegions: a 4x4 symbol and n INTERMEDIATE text regions of
+// 4096x4096 pixels with one instance each.  Every region bitmap (2 MiB, the
+// largest the decoder allows) stays alive until the end of the page and
+// costs next to no decoding work, so n of them ask for n x 2 MiB.
+func jbig2RetainedRegions(n int) []byte {
+	defer func() { _ = recover() }()
+	symbols := []*bitmap.Bitmap{patternBitmap(4, 4, 0)}
+	inst := []jbig2.SymbolInstance{{SymID: 0, T: 0, S: 0, Wi: 4, Hi: 4}}
+	tr := jbig2.EncodeTextRegionSegment(4096, 4096, 0, 0, inst, symbols, 1, false, bitmap.CombOpOR, 1, 0, 0)
+	sd := jbig2.EncodeSymbolDictSegment(symbols, 1)
+	body := jbig2.WriteSegmentHeader(nil, 0, 0, 1, nil, uint32(len(sd)))
+	body = append(body, sd...)
+	pi := jbig2.WritePageInfo(nil, 64, 64)
+	body = jbig2.WriteSegmentHeader(body, 1, 48, 1, nil, uint32(len(pi)))
+	body = append(body, pi...)
+	for k := 0; k < n; k++ {
+		body = jbig2.WriteSegmentHeader(body, uint32(2+k), 4, 1, []uint32{0}, uint32(len(tr)))
+		body = append(body, tr...)
+	}
+	return body
 }
